@@ -38,6 +38,9 @@ def gen(tier, rng):
                 if dt.startswith("float") and rng.random() < 0.5:
                     # magnitudes that tolerance / suppression / negligibility tests treat specially
                     pool = pool + ([1e-12, -1e-30, 1e-40, 2.0 ** -30] if dt == "float64" else [1e-12, -1e-30, 2.0 ** -30])
+                if dt.startswith("float"):
+                    # negative zero: equal to zero, different bytes (a "tidying" write of 0 into the argument shows only here)
+                    pool = pool + [-0.0, -0.0]
                 inp = {"op": op, "a": rand_poly(rng, shape=shape, pool=pool, dtype=dt, maxterms=3), "view": rng.random() < 0.3}
                 if binary:
                     r = rng.random()
@@ -138,7 +141,8 @@ def gen_numeric(tier, rng):
                                                "choose_index", "repeat_counts", "monomial_bounds", "glexsort_keys", "savetxt_none",
                                                "glexindex_bounds", "bindex_bounds", "cross_truncate_args", "lead_sortable_args",
                                                "call_function_form", "polynomial_dict_kept", "list_arguments",
-                                               "axis_arrays", "from_roots_array", "shape_arrays", "edge_arrays"]),
+                                               "axis_arrays", "from_roots_array", "shape_arrays", "edge_arrays", "nonfinite_data_integer_target",
+                                               "negative_zero_savetxt"]),
                "edtype": rng.choice(["uint32", "int64", "uint32", "int32"])}
 
 
@@ -147,7 +151,8 @@ def gen_numeric(tier, rng):
             "coefficient arrays, where= masks, index/count arrays, evaluation points) keep their bytes; containers handed over "
             "(the keyword mapping and argument tuple of numpoly.call(poly, args, kwargs), a dict of terms, lists of operands) keep "
             "their entries; integer arrays given as axis (negative entries), roots, repetition counts, target shape, to_begin/to_end/prepend/"
-            "append keep their bytes")
+            "append keep their bytes; float data with nan / inf / -0.0 handed to constructors with an integer target dtype and a "
+            "polynomial with negative-zero coefficients written with savetxt keep their bytes (the sign of zero included)")
 def numeric_arguments(inp):
     import numpoly
     spec = inp["p"]
@@ -171,7 +176,9 @@ def numeric_arguments(inp):
     axis1 = numpy.array([-1])
     roots = numpy.array([3.0, -1.0, 2.0])
     reps, newshape, edge = numpy.array([2, 1]), numpy.array([-1]), numpy.array([5, -4, 9])
-    held = {"E": E, "C": C, "mask": mask, "pts": pts, "idx": idx, "p": p, "lo": lo, "hi": hi, "grid": grid,
+    wild = [numpy.array([1.5, numpy.nan, numpy.inf, -numpy.inf, -0.0]), numpy.array([numpy.nan, 2.0, -0.0, 7.5, numpy.inf])]
+    negz = numpoly.polynomial_from_attributes([[0], [1]], [numpy.array([-0.0, 1.0, -0.0]), numpy.array([2.0, -0.0, 0.0])], ("q0",), retain_coefficients=True)
+    held = {"E": E, "C": C, "mask": mask, "pts": pts, "idx": idx, "p": p, "lo": lo, "hi": hi, "grid": grid, "wild": wild, "negz": negz,
             "kw": kw, "pargs": pargs, "terms": terms, "operands": operands, "axes": axes, "axis1": axis1, "roots": roots,
             "reps": reps, "newshape": newshape, "edge": edge}
     before = {k: snapshot(v) for k, v in held.items()}
@@ -244,6 +251,22 @@ def numeric_arguments(inp):
             v = numpoly.polynomial([1, p.ravel()[0] if p.size else 2, 3])
             numpoly.ediff1d(v, to_end=edge, to_begin=edge), numpoly.diff(v, prepend=edge, append=edge)
             numpoly.concatenate([v, edge]), numpoly.where(edge > 0, v, edge), numpoly.outer(v, edge), numpoly.inner(v, edge)
+        elif route == "nonfinite_data_integer_target":
+            import warnings
+            with warnings.catch_warnings(), numpy.errstate(all="ignore"):
+                warnings.simplefilter("ignore")
+                for call in (lambda: numpoly.polynomial(wild[0], dtype=int), lambda: numpoly.aspolynomial(wild[1], dtype="int32"),
+                             lambda: numpoly.polynomial_from_attributes([[0], [1]], wild, ("q0",), dtype=int),
+                             lambda: numpoly.polynomial({(0,): wild[0], (2,): wild[1]}, dtype="int64"),
+                             lambda: numpoly.polynomial(wild[0]).astype(int)):
+                    try:
+                        call()
+                    except Exception:
+                        pass
+        elif route == "negative_zero_savetxt":
+            import io
+            numpoly.savetxt(io.StringIO(), negz), numpy.savetxt(io.StringIO(), negz), numpoly.savetxt(io.StringIO(), -negz, fmt="%g")
+            str(negz), repr(negz), numpoly.sum(negz), negz.round(2), numpoly.isclose(negz, 0), negz.tonumpy() if negz.isconstant() else None
         elif route == "savetxt_none":
             import io
             numpoly.savetxt(io.StringIO(), p)
